@@ -319,6 +319,9 @@ def cli_args(d, o, extra=()):
     if rnd is not None:
         # patterns keep their relative order (the filter is order-independent, the listing is not asked to be)
         rnd.shuffle(groups)
+    if o.get("seed_eq_then_x") and o.get("shuffle_seed") is not None and o.get("stopOnError"):
+        groups = [g for g in groups if g[0] not in ("-x", "--stop-on-error", "--shuffle") and not g[0].startswith("--shuffle-seed")]
+        groups.append(["--shuffle", "--shuffle-seed=%d" % o["shuffle_seed"], "-x"])
     args = head + [a for g in groups for a in g]
     args += list(extra)
     return args
